@@ -653,12 +653,19 @@ def run_case(case):
                 diff = np.abs(Ec[sl] - Ec[:nb]).max(axis=1)
                 okdeg = degenerate[:nb] | degenerate[sl]
                 bad = (diff > wid[:nb] + wid[sl]) & ~okdeg
+                if ref.get("phi_slack_m", 0.0) > 0.0:
+                    # a period that does not tile 360 degrees exactly (51.4286 x 7 = 360.0002): rotation by the stated period is a symmetry of
+                    # the folded angle only up to that mismatch, i.e. a phi boundary met at a shallow angle moves along the ray by an
+                    # unbounded multiple of it and one midpoint sample may change cell.  One sample per cell is allowed here (every image
+                    # ray is still compared with its own exact chords above); more than one is reported.
+                    bad = bad & (diff > wid[:nb] + wid[sl] + np.maximum(dt[:nb], dt[sl]))
+                    classes.append("periodic:inexact-period:one-sample-allowed")
                 for i in np.nonzero(bad)[0]:
                     if i in exc or (i + m * nb) in exc:
                         continue
                     g1 = chords.sample_event_gap(ref, int(i), sv, ms)
                     g2 = chords.sample_event_gap(ref, int(i + m * nb), sv, ms)
-                    if min(g1, g2) < 1e-6 + ref.get("phi_slack_m", 0.0):
+                    if min(g1, g2) < 1e-6:
                         classes.append("periodic:fragile-sample-on-boundary")
                         continue
                     V.add("%s:periodic-image:%s" % (gc, _rcat(K[i])), "entries change when the ray is rotated about the axis by a whole number of periods",
